@@ -717,6 +717,9 @@ type DevCase struct {
 	// ExtNote: every deviate also carries the use of an extension that the deviating module
 	// defines (`mdev:note "...";`), which is legal anywhere and changes nothing
 	ExtNote bool `json:"ext_note,omitempty"`
+	// OpsNS: rpcs ("rpc:<name>") and notifications ("notif:<name>") of Mods[0] that a deviation marks not-supported:
+	// the edited twin has them removed
+	OpsNS []string `json:"ops_ns,omitempty"`
 }
 
 // DevEdit is one deviation: target (index into the node listing of Mods[0]) and what to do.
@@ -1023,6 +1026,27 @@ func genDev(t *rapid.T) DevCase {
 		used[ti] = true
 		c.Devs = append(c.Devs, DevEdit{Target: ti, Kind: o[0], Prop: o[1], Idx: g.Pick(4, "which")})
 	}
+	// not-supported on an rpc or a notification of the deviated module (one of two is kept, so that the lists stay
+	// non-empty on one side at least)
+	if m0 := c.Mods[0]; g.Chance(1, 3, "opsns") {
+		if len(m0.Rpcs) == 0 && len(m0.Notifs) == 0 {
+			str := &sg.TypeSpec{Name: "string"}
+			m0.Rpcs = append(m0.Rpcs, &sg.Rpc{Name: "oprpc", Input: []*sg.Node{{Kind: "leaf", Name: "opin", Type: str}}},
+				&sg.Rpc{Name: "oprpc2", Output: []*sg.Node{{Kind: "leaf", Name: "opout", Type: str}}})
+			m0.Notifs = append(m0.Notifs, &sg.Notif{Name: "opntf", Kids: []*sg.Node{{Kind: "leaf", Name: "opev", Type: str}}},
+				&sg.Notif{Name: "opntf2", Kids: []*sg.Node{{Kind: "container", Name: "opc", Kids: []*sg.Node{{Kind: "leaf", Name: "opev2", Type: str}}}}})
+		}
+		for _, r := range m0.Rpcs {
+			if g.Chance(1, 2, "rpcns") {
+				c.OpsNS = append(c.OpsNS, "rpc:"+r.Name)
+			}
+		}
+		for _, n := range m0.Notifs {
+			if g.Chance(1, 2, "notifns") {
+				c.OpsNS = append(c.OpsNS, "notif:"+n.Name)
+			}
+		}
+	}
 	return c
 }
 
@@ -1072,7 +1096,7 @@ func removeNode(m *sg.Mod, r sg.NodeRef) {
 
 func checkDev(c DevCase) fw.Outcome {
 	out := fw.Outcome{Key: fmt.Sprint(c.Devs) + texts(c.Mods)}
-	if len(c.Devs) == 0 {
+	if len(c.Devs) == 0 && len(c.OpsNS) == 0 {
 		out.Skip = true
 		return out
 	}
@@ -1115,7 +1139,34 @@ func checkDev(c DevCase) fw.Outcome {
 			belowUses = true
 		}
 	}
-	out.NonTrivial = belowUses || len(c.Devs) >= 2
+	for _, op := range c.OpsNS {
+		kind, name, _ := strings.Cut(op, ":")
+		out.Labels = append(out.Labels, "deviate:not-supported:"+kind)
+		d := sg.Deviate{Kind: "not-supported"}
+		if c.ExtNote {
+			d.Stmts = []string{`mdev:note "why";`}
+		}
+		dev.Deviations = append(dev.Deviations, &sg.Deviation{Target: "/" + c.Mods[0].Prefix + ":" + name, Deviates: []sg.Deviate{d}})
+		e0 := edited[0]
+		if kind == "rpc" {
+			var keep []*sg.Rpc
+			for _, r := range e0.Rpcs {
+				if r.Name != name {
+					keep = append(keep, r)
+				}
+			}
+			e0.Rpcs = keep
+		} else {
+			var keep []*sg.Notif
+			for _, n := range e0.Notifs {
+				if n.Name != name {
+					keep = append(keep, n)
+				}
+			}
+			e0.Notifs = keep
+		}
+	}
+	out.NonTrivial = belowUses || len(c.Devs)+len(c.OpsNS) >= 2
 	g := append(sg.Clone(c.Mods), dev)
 	if c.InSub {
 		out.Labels = append(out.Labels, "written-in-submodule")
@@ -1141,7 +1192,7 @@ func checkDev(c DevCase) fw.Outcome {
 
 var devProp = fw.Register(&fw.Prop[DevCase]{
 	ID: "C14", Name: "deviation",
-	Rule: "generated base modules and a deviating module with 1-3 deviations on generated targets (paths through containers, lists, choices and cases): not-supported, add (units, default, mandatory, must, " +
+	Rule: "generated base modules and a deviating module with 1-3 deviations on generated targets (paths through containers, lists, choices and cases; rpcs and notifications for not-supported): not-supported, add (units, default, mandatory, must, " +
 		"min/max-elements, config, unique), replace (units, default, mandatory, type, min/max-elements, config), delete (units, default, must, unique); oracle (metamorphic): base + deviating module compiles to the same schema " +
 		"as the base with its source edited accordingly (Deviations() attribute compared separately); non-trivial = a target at depth >= 3 or at least two deviations",
 	Gen: genDev, Check: checkDev,
